@@ -27,6 +27,7 @@ const (
 	ekCall
 	ekTagged
 	ekDecorator
+	ekDecTagged // a decorator on a tag of si whose argument is `!tagged t`, t carried by sj
 	ekCount
 )
 
@@ -65,6 +66,12 @@ func scopeGraphConfig(n int, ek [][]int, sc []string) *cfg.Config {
 				tag := fmt.Sprintf("d%d-%d", i, j)
 				si.Tags = append(si.Tags, cfg.Tag{Name: tag})
 				c.Decorators = append(c.Decorators, cfg.Decorator{Tag: tag, Decorator: "pa.DecSame", Args: []cfg.Val{cfg.Str("@" + sj.Name)}})
+			case ekDecTagged:
+				tag := fmt.Sprintf("e%d-%d", i, j)
+				other := fmt.Sprintf("m%d-%d", i, j)
+				si.Tags = append(si.Tags, cfg.Tag{Name: tag})
+				sj.Tags = append(sj.Tags, cfg.Tag{Name: other})
+				c.Decorators = append(c.Decorators, cfg.Decorator{Tag: tag, Decorator: "pa.DecSame", Args: []cfg.Val{cfg.Int(int64(i)), cfg.Str("!tagged " + other)}})
 			}
 		}
 	}
@@ -142,7 +149,7 @@ func keys(m map[string]bool) []string {
 }
 
 func checkC05(c *Ctx) error {
-	c.Rule = "(1) build-time half, exhaustive: every dependency structure on <=3 services (edges i->j for i<j, each realised as @ argument, field, call argument, !tagged or decorator-on-own-tag) x every assignment of {unset, shared, contextual, non_shared}: 4 + 96 + 13 824 = 13 924 configurations, plus variants with an undefined dependency next to the real ones run under --ignore-missing-services, through the real binary (quick: seeded sample of 3 500), Scope section compared with the reference scope rule; (2) run-time half: seeded configurations with explicit scopes on most services, executed with histories Get x2, getter, GetInContext(ctx1) x2, GetInContext(ctx2), GetTaggedBy(InContext) and compared with the reference identity model; for a third of them two further containers are built by the same constructor function and must not hand out a common instance. distinct = distinct configuration text; non-trivial = >=2 services with >=1 dependency edge and >=1 explicit scope"
+	c.Rule = "(1) build-time half, exhaustive: every dependency structure on <=3 services (edges i->j for i<j, each realised as @ argument, field, call argument, !tagged, decorator-on-own-tag with an @ argument or with a !tagged argument) x every assignment of {unset, shared, contextual, non_shared}: 4 + 112 + 21 952 configurations, plus variants with an undefined dependency next to the real ones run under --ignore-missing-services, through the real binary (quick: seeded sample of 3 500), Scope section compared with the reference scope rule; (2) run-time half: seeded configurations with explicit scopes on most services, executed with histories Get x2, getter, GetInContext(ctx1) x2, GetInContext(ctx2), GetTaggedBy(InContext) and compared with the reference identity model; for a third of them two further containers are built by the same constructor function and must not hand out a common instance. distinct = distinct configuration text; non-trivial = >=2 services with >=1 dependency edge and >=1 explicit scope"
 	c.Assumptions = []string{"reference scope rule engine/ref (B.6) and identity model (B.7)", "instance identity is observed through fixture serials"}
 	w := c.W
 	// ---- (1) exhaustive small graphs: verdicts through the real binary
